@@ -5,7 +5,7 @@ seeds="$@"; [ -z "$seeds" ] && seeds=$(cut -d'"' -f4 build/seedverify/results.js
 for n in $seeds; do
   p=$(echo $n | cut -d_ -f1)
   extra=""
-  case $n in C07_m1) extra="C13";; C17_m3) extra="C09";; C07_m5) extra="C08";; C07_m7) extra="C13";; C07_m11) extra="C04";; C18_m10) extra="C03";; C03_m5) extra="C05";; C02_m5) extra="C18";; esac
+  case $n in C07_m1) extra="C13";; C17_m3) extra="C09";; C07_m5) extra="C08";; C07_m7) extra="C13";; C07_m11) extra="C04";; C07_m13) extra="C13";; C04_m13) extra="C05";; C10_m13) extra="C14";; C18_m10) extra="C03";; C03_m5) extra="C05";; C02_m5) extra="C18";; esac
   d=/verif/seeded_raw/$n
   mkdir -p build/seedverify/$n; : > build/seedverify/$n/check.log
   ( cd /repo
